@@ -1137,7 +1137,15 @@ caption_command(vbi_decoder *vbi, struct caption *cc,
 
 		case 8:		/* Flash On			001 c10f  010 1000 */
 // not verified
+			if (!ch->mode)
+				return;
+
 			ch->attr.flash = TRUE;
+
+			/* 47 CFR 15.119 (h)(1)(i): Flash On is a spacing
+			   attribute like the Mid-Row Codes. */
+			put_char_space(cc, ch);
+
 			return;
 
 		case 1:		/* Backspace			001 c10f  010 0001 */
